@@ -1094,7 +1094,7 @@ def run(ctx):
     ng = gcmacros_inner(ctx, d, exe, gm)
     if partial and ctx.violations:
         return          # the tree does not build to the end and a concrete failing input is already on record
-    ctx.note("gc macro families: %d arities regenerated, %d use sites scanned, %d arities run compiled around a real collection" % (len(gm["arities"]), gm["uses"], ng))
+    ctx.note("gc macro families: %d arities regenerated, %d use sites scanned, %d cases (7 arities + preserve/release-object call sequences) run compiled around real collections" % (len(gm["arities"]), gm["uses"], ng))
     nc = inner(ctx, d, exe, facts, ni, si, only_noimport=partial)
     nh = 0 if partial else inner_hook(ctx, d, exe, 8 if ctx.thorough else 2)
     t1 = time.time()
